@@ -336,8 +336,10 @@ fn all_classes(_: &str) -> bool {
 /// it still says which members are examined, which reports and calls are made (every delivered
 /// member is an entry of the payload); which occurrence ends up in the value is not specified
 /// by any property, so values are only compared without duplicates.
-pub fn model_applies(scn: &Scenario) -> bool {
-    !scn.has_exotic
+pub fn model_applies(_scn: &Scenario) -> bool {
+    // (non-negative numbers handed over as NegativeInteger used to be excluded; the reference
+    // interpreter knows them: wrong kind for unsigned targets, the number itself for signed ones)
+    true
 }
 
 fn m_value_nodup(c: &Checker, exp: &Expect, r: &Run, out: &mut Vec<Violation>) {
@@ -470,9 +472,7 @@ fn c03(c: &mut Checker) {
         let r = c.exec(&cfg, &has_break);
         let mut out = vec![];
         rules::h_stop(&r, &mut out);
-        if !c.scn.has_dup {
-            rules::h_stop_inside(&r, &mut out);
-        }
+        rules::h_stop_inside(&r, &c.scn.doc, &mut out);
         rules::h_prefix_and_handover(&base, &r, k, true, &mut out);
         if !c.scn.has_dup {
             rules::h_deliver(&base, &r, &mut out);
@@ -482,9 +482,7 @@ fn c03(c: &mut Checker) {
         let r = c.exec(&cfg, &has_break);
         let mut out = vec![];
         rules::h_stop(&r, &mut out);
-        if !c.scn.has_dup {
-            rules::h_stop_inside(&r, &mut out);
-        }
+        rules::h_stop_inside(&r, &c.scn.doc, &mut out);
         rules::h_prefix_and_handover(&base, &r, k, false, &mut out);
         if !c.scn.has_dup {
             rules::h_deliver(&base, &r, &mut out);
@@ -514,8 +512,8 @@ fn c03(c: &mut Checker) {
         let r = c.exec(&cfg, &has_break);
         let mut out = vec![];
         rules::h_stop(&r, &mut out);
+        rules::h_stop_inside(&r, &c.scn.doc, &mut out);
         if !c.scn.has_dup {
-            rules::h_stop_inside(&r, &mut out);
             rules::h_deliver(&base, &r, &mut out);
         }
         c.record(out, &cfg, &r);
@@ -735,6 +733,9 @@ fn c07(c: &mut Checker) {
         );
         // every delivered entry whose key is a field's effective key is read (and no other)
         rules::m_visits("M-visits", &exp, &r, &mut out);
+        if !c.scn.has_dup {
+            rules::m_decodes("M-decodes", &exp, &r, &mut out);
+        }
         out.extend(conservation_rules(&r));
         c.record(out, &cfg, &r);
     }
@@ -793,6 +794,10 @@ fn c09(c: &mut Checker) {
         let mut out = vec![];
         rules::m_reports("M-reports", &exp, &r, Strict::Full, &|cl| cl == "UnknownKey" || cl == "Foreign", &mut out);
         rules::m_calls_opt("M-calls", &exp, &r, false, c.scn.has_dup, &|s| s == CallStage::Unknown, &mut out);
+        // an unknown member is looked at by name only: its value is never decoded
+        if !c.scn.has_dup {
+            rules::m_decodes("M-decodes", &exp, &r, &mut out);
+        }
         // "is reported": the report must also be in the error the call returns
         out.extend(conservation_rules(&r));
         c.stats.bump("expected_unknown_key_reports", exp.unknown_denied as u64);
@@ -1142,12 +1147,14 @@ pub fn profile(prop: Prop, env: &Env) -> Profile {
             p.programs = pick(&|f| !f.tag_clash && !f.key_clash);
         }
         Prop::C02 => {
+            allowed.exotic = true;
             allowed.nonfinite = true;
             allowed.collide = true;
             allowed.dup = true;
             p.allowed = allowed;
         }
         Prop::C06 => {
+            allowed.exotic = true;
             allowed.nonfinite = true;
             allowed.collide = true;
             allowed.dup = true;
